@@ -18,7 +18,7 @@ from vlib.kernel import (Violation, Info, unexpected, dataflows, root_cause, run
 
 PID = 'C10'
 LEVEL = 'exploration'
-RULE = ('fixed part (exhaustive): every selector-taking processor (20) x every selector form (None, exact name, escaped '
+RULE = ('fixed part (exhaustive): every selector-taking processor (21; parallelize under the C18 scheduler with one worker) x every selector form (None, exact name, escaped '
         'name, ".*", prefix.*, n1|n2 both orders, (n1|n2), dotted name used as regex, lists of 0-3 names, every integer '
         '-n..n-1) x 5 fixed packages of 1-4 resources whose names are prefixes of one another / contain "."; drawn part: '
         'names and selectors drawn by Hypothesis. non-trivial: selection is a proper non-empty subset, or the package has '
@@ -26,7 +26,7 @@ RULE = ('fixed part (exhaustive): every selector-taking processor (20) x every s
 ASSUMPTIONS = [
     'integer selectors are within range; string selectors are valid regular expressions',
     'concatenate is only exercised with a non-empty consecutive selection (its documented precondition)',
-    'parallelize is exercised in C18 (harness-owned scheduler); its selector goes through the same ResourceMatcher',
+    'parallelize runs under the harness-owned scheduler of C18 (one worker); its rows are compared as multisets',
 ]
 EXHAUSTIVE_NOTE = 'the fixed product processors x selector forms x FIXED_PACKAGES is enumerated completely on every run'
 BUDGET = {'quick': dict(examples=800, shards=8, seconds=70),
@@ -35,7 +35,7 @@ BUDGET = {'quick': dict(examples=800, shards=8, seconds=70),
 FIXED_PACKAGES = [['b'], ['a', 'ab'], ['a.b', 'a1b', 'axb'], ['a', 'ab', 'a.b', 'a-b'], ['res_1', 'res_10', 'a']]
 PROCS = ['validate', 'deduplicate', 'printer', 'set_type', 'load_package', 'load_tuple', 'sort_rows', 'filter_rows',
          'unpivot', 'concatenate', 'delete_resource', 'update_resource', 'update_schema', 'set_primary_key',
-         'add_field', 'add_computed_field', 'find_replace', 'select_fields', 'delete_fields', 'rename_fields']
+         'add_field', 'add_computed_field', 'find_replace', 'select_fields', 'delete_fields', 'rename_fields', 'parallelize']
 
 FIELDS = [{'name': 'id', 'type': 'integer'}, {'name': 'v', 'type': 'string'}, {'name': 'n', 'type': 'integer'},
           {'name': 'm', 'type': 'integer'}]
@@ -152,6 +152,8 @@ def build_step(proc, sel, capture=None):
         return d.delete_fields(['n'], resources=sel)
     if proc == 'rename_fields':
         return d.rename_fields({'v': 'w'}, resources=sel)
+    if proc == 'parallelize':
+        return d.parallelize(_par_func, num_processors=1, resources=sel)
     raise AssertionError(proc)
 
 
@@ -173,8 +175,26 @@ def write_package(pkg, d):
     return dp
 
 
-def run(steps, pkg, seq=False):
-    return run_steps(steps, gen.descriptor_of(pkg), gen.tables_of(pkg))
+def _par_func(row):
+    row['v'] = row['v'] + '!'
+
+
+def run(steps, pkg, seq=False, scheduled=False):
+    if not scheduled:
+        return run_steps(steps, gen.descriptor_of(pkg), gen.tables_of(pkg))
+    # parallelize runs under the harness-owned scheduler of C18 (one worker, round-robin schedule)
+    from vlib import sched as vsched
+    s = vsched.Scheduler([])
+    out = {}
+
+    def consumer():
+        out['r'] = run_steps(steps, gen.descriptor_of(pkg), gen.tables_of(pkg))
+    with vsched.patched(s):
+        main = s.run(consumer)
+    if main.error is not None:
+        raise main.error
+    d_, rows = out['r']
+    return d_, [sorted(t, key=lambda r: (r.get('id', 0), r.get('m', 0), str(r.get('v')))) for t in rows]
 
 
 def check(case, ctx):
@@ -219,10 +239,11 @@ def check(case, ctx):
                     return Info(rejected=True, classes=classes + ['set_type-nothing-to-do'])
                 raise
             raise Violation('set_type:empty-selection-accepted', {})
-        out_desc, out = run([build_step(proc, sel, capture)], pkg)
+        sched_ = proc == 'parallelize'
+        out_desc, out = run([build_step(proc, sel, capture)], pkg, scheduled=sched_)
         ref_desc = passthrough_desc(gen.descriptor_of(pkg))
         if sub:
-            sub_desc, sub_out = run([build_step(proc, None, [])], sub)
+            sub_desc, sub_out = run([build_step(proc, None, [])], sub, scheduled=sched_)
         else:
             sub_desc, sub_out = {'resources': []}, []
     except Violation:
@@ -248,7 +269,7 @@ def check(case, ctx):
         d, rows = by_name[nm]
         if d != ref_desc['resources'][i]:
             raise Violation('%s:unselected-descriptor-changed' % proc, {'resource': nm, 'selector': sel})
-        if rows != pkg[i]['rows']:
+        if rows != pkg[i]['rows'] and not (proc == 'parallelize' and sorted(map(repr, rows)) == sorted(map(repr, pkg[i]['rows']))):
             raise Violation('%s:unselected-rows-changed' % proc, {'resource': nm, 'selector': sel,
                                                                   'diff': first_diff(rows, pkg[i]['rows'])})
     # selected resources: same as the step with resources=None on the sub-package
